@@ -10,6 +10,7 @@ import (
 	"errors"
 	"fmt"
 	"io"
+	"io/fs"
 	"mime"
 	"os"
 	"path/filepath"
@@ -244,6 +245,28 @@ func (s *MsgSpec) Build() (*mail.Msg, error) {
 				return m.EmbedFromIOFS("dir/data.bin", fsys, fo...)
 			}
 			return m.AttachFromIOFS("dir/data.bin", fsys, fo...)
+		case "iofsgone", "filegone":
+			// the source can be opened when the file is attached and is gone when the message is rendered
+			// (the producer of the spec must be {no data, Fail}: that is what the model renders)
+			if f.Src == "filegone" {
+				path, ferr := tempFile(content)
+				if ferr != nil {
+					return ferr
+				}
+				fo = append(fo, mail.WithFileName(f.Name))
+				if embed {
+					m.EmbedFile(path, fo...)
+				} else {
+					m.AttachFile(path, fo...)
+				}
+				return os.Remove(path)
+			}
+			fsys := &vanishingFS{inner: fstest.MapFS{"dir/data.bin": &fstest.MapFile{Data: []byte("was here")}}, opensLeft: 1}
+			fo = append(fo, mail.WithFileName(f.Name))
+			if embed {
+				return m.EmbedFromIOFS("dir/data.bin", fsys, fo...)
+			}
+			return m.AttachFromIOFS("dir/data.bin", fsys, fo...)
 		case "tpl":
 			if embed {
 				return m.EmbedTextTemplate(f.Name, verbatimTpl, string(content), fo...)
@@ -278,6 +301,20 @@ func (s *MsgSpec) Build() (*mail.Msg, error) {
 		}
 	}
 	return m, nil
+}
+
+// vanishingFS lets a file be opened opensLeft times; afterwards Open fails as if the file had been deleted.
+type vanishingFS struct {
+	inner     fstest.MapFS
+	opensLeft int
+}
+
+func (v *vanishingFS) Open(name string) (fs.File, error) {
+	if v.opensLeft <= 0 {
+		return nil, &fs.PathError{Op: "open", Path: name, Err: fs.ErrNotExist}
+	}
+	v.opensLeft--
+	return v.inner.Open(name)
 }
 
 var verbatimTpl = template.Must(template.New("verbatim").Parse("{{.}}"))
